@@ -14,19 +14,19 @@ import (
 type R01 struct{ api.APIEntry }
 
 func (z *R01) Join(c *as.RemoteContext, m *msgs.TestHello, cb apientry.HandlerCBFunc) {
-	act(4001, m == nil, func() int64 { return int64(m.I) }, cbA(cb))
+	act(4001, m == nil, func() int64 { return tok(m) }, cbA(cb))
 }
 func (z *R01) Note(c *as.RemoteContext, m *msgs.TestHello) {
-	act(4002, m == nil, func() int64 { return int64(m.I) }, nil)
+	act(4002, m == nil, func() int64 { return tok(m) }, nil)
 }
 func (z *R01) Json(c *as.RemoteContext, m *MsgA, cb apientry.HandlerCBFunc) {
-	act(4003, m == nil, func() int64 { return int64(m.N) }, cbA(cb))
+	act(4003, m == nil, func() int64 { return tok(m) }, cbA(cb))
 }
 func (z *R01) Unfit(c *as.RemoteContext, m *msgs.TestHello, cb func()) {
-	act(4004, m == nil, func() int64 { return int64(m.I) }, nil)
+	act(4004, m == nil, func() int64 { return tok(m) }, nil)
 }
 func (z *R01) Ret(c *as.RemoteContext, m *msgs.TestHello, cb func(error, interface{})) error {
-	act(4005, m == nil, func() int64 { return int64(m.I) }, cbF(cb))
+	act(4005, m == nil, func() int64 { return tok(m) }, cbF(cb))
 	return nil
 }
 
@@ -34,29 +34,29 @@ func (z *R01) Ret(c *as.RemoteContext, m *msgs.TestHello, cb func(error, interfa
 type R02 struct{ api.APIEntry }
 
 func (z *R02) Join(c *as.RemoteContext, m *msgs.TestHello, cb apientry.HandlerCBFunc) {
-	act(4101, m == nil, func() int64 { return int64(m.I) }, cbA(cb))
+	act(4101, m == nil, func() int64 { return tok(m) }, cbA(cb))
 }
 func (z *R02) Note(c *as.RemoteContext, m *msgs.TestHello, cb apientry.HandlerCBFunc) { // request-shaped here
-	act(4102, m == nil, func() int64 { return int64(m.I) }, cbA(cb))
+	act(4102, m == nil, func() int64 { return tok(m) }, cbA(cb))
 }
 func (z *R02) Only2(c *as.RemoteContext, m *msgs.TestHello, cb apientry.HandlerCBFunc) {
-	act(4103, m == nil, func() int64 { return int64(m.I) }, cbA(cb))
+	act(4103, m == nil, func() int64 { return tok(m) }, cbA(cb))
 }
 func (z *R02) Quiet(c *as.RemoteContext, m *msgs.TestHello) {
-	act(4104, m == nil, func() int64 { return int64(m.I) }, nil)
+	act(4104, m == nil, func() int64 { return tok(m) }, nil)
 }
 
 // R03: handler-shaped, but for another context type: every dispatched call is refused by reflect
 type R03 struct{ api.APIEntry }
 
 func (z *R03) Join(c *api.DummyContext, m *msgs.TestHello, cb apientry.HandlerCBFunc) {
-	act(4201, m == nil, func() int64 { return int64(m.I) }, cbA(cb))
+	act(4201, m == nil, func() int64 { return tok(m) }, cbA(cb))
 }
 func (z *R03) Other(c *ZCtx, m *msgs.TestHello) {
-	act(4202, m == nil, func() int64 { return int64(m.I) }, nil)
+	act(4202, m == nil, func() int64 { return tok(m) }, nil)
 }
 func (z *R03) Mixed(c *as.RemoteContext, m *msgs.TestHello, cb apientry.HandlerCBFunc) {
-	act(4203, m == nil, func() int64 { return int64(m.I) }, cbA(cb))
+	act(4203, m == nil, func() int64 { return tok(m) }, cbA(cb))
 }
 
 // zoo ids of the remote entries
